@@ -324,10 +324,9 @@ def _rxn_cases(first):
                             continue
                         for order in ("sorted", "reversed"):
                             yield reac, prod, coeffs, order
-                    if nr + np_ == 2:
-                        # non-integral coefficients with many digits print as the number they are
-                        for longc in ((1 / 3, 1), (1, 0.1 + 0.2), (12345678.125, 2 / 3), (1 / 7, 1e-10 / 3)):
-                            if coeffs == (1, 1):
+                        if nr + np_ == 2 and coeffs == (1, 1):
+                            # non-integral coefficients with many digits print as the number they are
+                            for longc in ((1 / 3, 1), (1, 0.1 + 0.2), (12345678.125, 2 / 3), (1 / 7, 1e-10 / 3)):
                                 yield reac, prod, longc, "sorted"
                         if nr + np_ <= 3 and 0.5 not in coeffs:
                             yield reac, prod, coeffs, "typed"  # the same integers as sympy / numpy / float / Fraction numbers
